@@ -166,7 +166,7 @@ def run(tier, seed, acc):
     cfgs = configs(tier, seed)
     run_lattice(MOD, cfgs, acc, shards_per_worker=8)
     c = acc.counts
-    if c.get("jacobians", 0) < 200:
+    if not acc.viol and (c.get("jacobians", 0) < 200):
         raise HarnessError(f"C03 non-vacuity floor missed: {c}")
     cov = {
         "evaluations": c.get("evaluations", 0),
